@@ -1,6 +1,7 @@
 package main
 
 import (
+	"sort"
 	"bytes"
 	"encoding/json"
 	"fmt"
@@ -12,6 +13,7 @@ import (
 	"time"
 
 	"github.com/mimiro-io/datahub/internal/server"
+	dsvc "github.com/mimiro-io/datahub/internal/service/dataset"
 )
 
 // ---------------------------------------------------------------------------------------------
@@ -123,12 +125,17 @@ func (r *histRun) newestRecorded(dsName string) int64 {
 	return m
 }
 
-func (r *histRun) crash(i int, op M) {
+func (r *histRun) crash(i int, op M) (extra M) {
 	inner := getm(op, "inner")
 	kind := gets(inner, "op")
 	lastT := r.lastTime()
 	existed := func(k string) bool { n := gets(inner, k); return n != "" && r.h.Dsm.GetDataset(n) != nil }
 	nameBefore, toBefore := existed("name"), existed("to")
+	var preProbe []interface{}
+	var preFeed []string
+	if kind == "compact" {
+		preProbe, preFeed = r.compactProbe(gets(inner, "ds"))
+	}
 	r.h.Close()
 	acked, res, note := runCrashChild(r.dir, inner, gets(op, "point"), geti(op, "hit"))
 	r.h = OpenHub(r.dir, false) // the restart
@@ -165,10 +172,27 @@ func (r *histRun) crash(i int, op M) {
 			landed = true
 			inner["dsid"] = ds.InternalID
 		}
+	case kind == "compact":
+		landed = true // finished below: after the restart the compaction is run again, to the end
 	case kind == "deleteDs":
 		landed = nameBefore && r.h.Dsm.GetDataset(gets(inner, "name")) == nil
 	case kind == "renameDs":
 		landed = nameBefore && !toBefore && r.h.Dsm.GetDataset(gets(inner, "to")) != nil && r.h.Dsm.GetDataset(gets(inner, "name")) == nil
+	}
+	if kind == "compact" && gets(inner, "rc") == "" {
+		// C12: a compaction that was killed between (or before) its flushes is invisible to readers — listing, latest-only
+		// feed and lookups answer as before — and the full feed is still readable and has lost nothing but duplicates;
+		// running the compaction again finishes the job (the history's later queries check the final feed exactly)
+		postProbe, postFeed := r.compactProbe(gets(inner, "ds"))
+		extra = M{"probe_same": canonJSON(preProbe) == canonJSON(postProbe), "feed_ok": postFeed != nil && isSubsequence(postFeed, preFeed)}
+		cw := dsvc.NewCompactor(r.h.Store, r.h.Dsm, quietLogger())
+		if err := cw.VerifCompact(gets(inner, "ds"), geti(inner, "threshold")); err != nil {
+			extra["repair"] = "err:" + err.Error()
+		}
+		_, finalFeed := r.compactProbe(gets(inner, "ds"))
+		if finalFeed == nil || !isSubsequence(finalFeed, postFeed) {
+			extra["feed_ok"] = false
+		}
 	}
 	op["landed"] = landed
 	if landed {
@@ -207,6 +231,7 @@ func (r *histRun) crash(i int, op M) {
 			r.c.Count("c04:died-landed", 1)
 		}
 	}
+	return extra
 }
 
 // wrapCrashes turns some of the state-changing operations of a generated history into crash operations.
@@ -278,4 +303,66 @@ func wrapCrashes(c *Ctx, ops []M, cp crashPoints) []M {
 
 func init() {
 	register("store-c04", func(c *Ctx) { genStore(c, "c04") })
+}
+
+// compactProbe reads what compaction must not change (listing, latest-only feed, scoped lookups of every listed id)
+// and the full feed (as canonical strings; nil when it cannot be read).
+func (r *histRun) compactProbe(dsName string) (probe []interface{}, feed []string) {
+	defer func() {
+		if p := recover(); p != nil {
+			probe = append(probe, M{"panic": fmt.Sprint(p)})
+			feed = nil
+		}
+	}()
+	ds := r.h.Dsm.GetDataset(dsName)
+	if ds == nil {
+		return []interface{}{"nods"}, []string{}
+	}
+	res, err := ds.GetEntities("", 0)
+	if err != nil {
+		return []interface{}{"err:" + err.Error()}, nil
+	}
+	for _, e := range res.Entities {
+		probe = append(probe, canonEntity(e))
+		if one, err := r.h.Store.GetEntity(e.ID, []string{dsName}, true); err == nil {
+			probe = append(probe, canonEntity(one))
+		}
+	}
+	lo, err := ds.GetChanges(0, 0, true)
+	if err != nil {
+		return append(probe, "err:"+err.Error()), nil
+	}
+	// the latest-only feed as a multiset: removing a duplicate that was the latest version moves the entity to the
+	// position of its (identical) predecessor
+	los := []string{}
+	for _, e := range lo.Entities {
+		los = append(los, canonJSON(canonEntity(e)))
+	}
+	sort.Strings(los)
+	probe = append(probe, los)
+	all, err := ds.GetChanges(0, 0, false)
+	if err != nil {
+		return probe, nil
+	}
+	feed = []string{}
+	for _, e := range all.Entities {
+		feed = append(feed, canonJSON(canonEntity(e)))
+	}
+	return probe, feed
+}
+
+func canonJSON(v interface{}) string {
+	b, _ := json.Marshal(v)
+	return string(b)
+}
+
+// isSubsequence: a is obtained from b by deleting elements.
+func isSubsequence(a, b []string) bool {
+	i := 0
+	for _, x := range b {
+		if i < len(a) && a[i] == x {
+			i++
+		}
+	}
+	return i == len(a)
 }
